@@ -1064,7 +1064,7 @@ func (f *File) Cleanup() {
 	// single line carrying the block's comments as well as its own.
 	for _, r := range f.Retract {
 		if r.Syntax != nil && !r.Syntax.InBlock {
-			r.Rationale = parseDirectiveComment(nil, r.Syntax)
+			r.Rationale = parseDirectiveComment(nil, attachedComments(r.Syntax))
 		}
 	}
 	// Likewise for the other comments that carry meaning: the indirect
@@ -1075,8 +1075,23 @@ func (f *File) Cleanup() {
 		}
 	}
 	if f.Module != nil && f.Module.Syntax != nil && !f.Module.Syntax.InBlock {
-		f.Module.Deprecated = parseDeprecation(nil, f.Module.Syntax)
+		f.Module.Deprecated = parseDeprecation(nil, attachedComments(f.Module.Syntax))
 	}
+}
+
+// attachedComments returns line as a parse of the formatted file sees it when
+// the line is not inside a block: of the comments before it, those above a
+// blank line are printed as a comment block of their own and no longer
+// belong to the line. (Inside a block a blank line does not separate them.)
+func attachedComments(line *Line) *Line {
+	for i := len(line.Before) - 1; i >= 0; i-- {
+		if !strings.HasPrefix(line.Before[i].Token, "//") {
+			view := *line
+			view.Before = line.Before[i+1:]
+			return &view
+		}
+	}
+	return line
 }
 
 func (f *File) AddGoStmt(version string) error {
